@@ -7,7 +7,7 @@
 (* rewriter and prints one verdict line per (record, property).            *)
 (* The post-condition only states that every record was consumed.          *)
 (***************************************************************************)
-EXTENDS Sites, Json, IOUtils
+EXTENDS Sites, Hygiene, Json, IOUtils
 
 Recs == ndJsonDeserialize(IOEnv.TRACE)
 
@@ -15,6 +15,7 @@ VARIABLE l
 vars == <<l>>
 
 KnownDevWhys == DevWhys
+HygDevs == {"dev:D10-temporary-shared-across-activations"}
 
 Verdict(rid, prop, v, detail) == PrintT("VERDICT|" \o rid \o "|" \o prop \o "|" \o v \o "|" \o ToString(detail))
 
@@ -25,10 +26,34 @@ DebugCount(dbg, tag) ==
   IF dbg = <<>> THEN 0
   ELSE (IF Head(dbg).tag = tag THEN Head(dbg).n ELSE 0) + DebugCount(Tail(dbg), tag)
 
+(* C08 : the output is valid JavaScript of the same kind (parser verdicts are external oracles). *)
+(* devs: named deviations that explain a rejection by V8 (a reserved-name clash, see C06).      *)
+J08(r, modified, devs) ==
+  IF ~modified THEN Verdict(r.rid, "C08", "na", "not modified")
+     ELSE IF r.v8_in = "err" THEN Verdict(r.rid, "C08", "na", "V8 rejects the input")
+     ELSE IF r.v8_out = "err" /\ devs # {} THEN Verdict(r.rid, "C08", "dev", devs)
+     ELSE IF r.v8_out = "err" THEN Verdict(r.rid, "C08", "reject", "V8 rejects the output")
+     ELSE IF r.kind_out # r.kind_in THEN Verdict(r.rid, "C08", "reject", <<"kind changed", r.kind_in, r.kind_out>>)
+     ELSE IF ~r.has_trailer THEN Verdict(r.rid, "C08", "reject", "no source-map trailer")
+     ELSE Verdict(r.rid, "C08", IF r.v8_out = "ok" THEN "ok" ELSE "ok0", r.kind_out)
+
 JudgeOk(r) ==
   \E modified \in {r.status = "modified"} :
   \E rin \in {TreeOf(r.in)} :
   \E rout \in {TreeOf(r.out)} :
+  \E clash \in {IF modified THEN {o \in RpOcc(rin, [blk |-> FALSE, ex |-> FALSE], r.cfg.tpl # "") : o[1] \in LetNames(rout)} ELSE {}} :
+  IF modified /\ ~r.swc_out_ok THEN
+    /\ \A p \in {"C02", "C03", "C04", "C05", "C06", "C07", "C12", "C15"} : Verdict(r.rid, p, "na", "output does not parse, see C08")
+    /\ Verdict(r.rid, "C08", "reject", "the rewriter's own parser rejects the output")
+  ELSE IF clash # {} THEN
+    \* the input itself uses a name the output declares as a temporary: injected names cannot be
+    \* told apart structurally, so only C06 (which is about exactly this) is decided
+    /\ \A p \in {"C02", "C03", "C04", "C05", "C07", "C12", "C15"} : Verdict(r.rid, p, "na", "reserved-name clash, see C06")
+    /\ J08(r, modified, IF \E o \in clash : o[2] THEN {} ELSE {"dev:D9-reserved-prefix-identifier-in-unscanned-position"})
+    /\ IF \E o \in clash : o[2]
+       THEN Verdict(r.rid, "C06", "reject", <<"reserved-prefix identifier of the input is captured / redeclared by an injected let", clash>>)
+       ELSE Verdict(r.rid, "C06", "dev", {"dev:D9-reserved-prefix-identifier-in-unscanned-position"})
+  ELSE
   \E ci \in {Er(rin, EmptyEnv({}))} :
   \E e \in {IF modified THEN Er(rout, EmptyEnv(Injected(rout, rin))) ELSE ci} :
   \E m \in {Match(e, ci)} :
@@ -71,6 +96,24 @@ JudgeOk(r) ==
      ELSE IF strayNames # {} THEN Verdict(r.rid, "C05", "reject", <<"hook namespace dereferenced with unconfigured names", strayNames>>)
      ELSE IF r.cfg.alldsts = <<>> /\ modified THEN Verdict(r.rid, "C05", "reject", "modified with an empty method list")
      ELSE Verdict(r.rid, "C05", "ok", Cardinality({i \in siteIdx : ~sites[i].en}))
+  \* ---- C06 (static half) : hygiene of injected temporaries in the real output
+  /\ IF ~modified THEN Verdict(r.rid, "C06", "na", "not modified")
+     ELSE \E inj \in {Injected(rout, rin)} :
+          \E probs \in {Hyg0(rout, inj)} :
+          LET letNames == LetNames(rout)
+              undeclared == {nm \in RpNames(rout) : nm \notin letNames /\ nm \notin Names(rin)}
+              hard == {p \in probs : p \notin HygDevs}
+          IN IF hard # {} THEN Verdict(r.rid, "C06", "reject", hard)
+             ELSE IF undeclared # {} THEN Verdict(r.rid, "C06", "reject", <<"injected names left undeclared", undeclared>>)
+             ELSE IF probs # {} THEN Verdict(r.rid, "C06", "dev", probs)
+             ELSE Verdict(r.rid, "C06", IF inj # {} THEN "ok" ELSE "ok0", Cardinality(inj))
+  \* ---- C07 : directive prologues of the program and of every function body
+  /\ IF ~modified THEN Verdict(r.rid, "C07", "na", "not modified")
+     ELSE \E din \in {DirList(rin)} : \E dout \in {DirList(rout)} :
+          IF din = dout
+          THEN Verdict(r.rid, "C07", IF \E k \in 1..Len(din) : din[k][2] # <<>> THEN "ok" ELSE "ok0", Len(din))
+          ELSE Verdict(r.rid, "C07", "reject", <<"directive prologues differ", din, dout>>)
+  /\ J08(r, modified, {})
   \* ---- C12 : status agrees with content
   /\ IF modified /\ (nhooks = 0 \/ ~r.has_prologue \/ ~r.has_trailer \/ r.content_empty)
      THEN Verdict(r.rid, "C12", "reject", <<"modified but", nhooks, r.has_prologue, r.has_trailer, r.content_empty>>)
@@ -90,9 +133,17 @@ JudgeOk(r) ==
      ELSE IF r.mstatus # r.status \/ ~r.mfile_ok THEN Verdict(r.rid, "C15", "reject", "status/file echo")
      ELSE Verdict(r.rid, "C15", IF nhooks > 0 THEN "ok" ELSE "na", nhooks)
 
+(* C13: every call returns a result or an error value carrying a diagnostic *)
+JudgeTotal(r) ==
+  IF r.outcome \in {"ok", "noparse", "ok_total"} THEN Verdict(r.rid, "C13", "ok", "result")
+  ELSE IF r.outcome = "err" THEN
+         IF r.error # "" THEN Verdict(r.rid, "C13", "ok", "error value")
+         ELSE Verdict(r.rid, "C13", "reject", "error without diagnostic")
+  ELSE Verdict(r.rid, "C13", "reject", <<r.outcome, r.error>>)
+
 Judge(r) ==
-  IF r.outcome = "ok" THEN JudgeOk(r)
-  ELSE Verdict(r.rid, "SKIP", "na", r.outcome)
+  /\ JudgeTotal(r)
+  /\ IF r.outcome = "ok" THEN JudgeOk(r) ELSE TRUE
 
 Init == l = 1
 Next == /\ l <= Len(Recs)
